@@ -294,6 +294,10 @@ func applyFault(kind string, g []byte, rnd *rand.Rand) []byte {
 		return []byte{[]byte{0x69, 0x6A, 0x67, 0x6F}[rnd.Intn(4)], []byte{0x82, 0x82, 0x00, 0x00}[rnd.Intn(4)]}
 	case "naked":
 		return []byte{0x90, 0x00}
+	case "notfound": // the status with a meaning of its own for SELECT ("file not found")
+		return []byte{0x6A, 0x82}
+	case "invalidated": // treated like not-found by SelectEF (documented accommodation)
+		return []byte{0x62, 0x83}
 	}
 	return g
 }
@@ -685,13 +689,15 @@ func C11(c *core.Ctx) {
 	c.Assume("'garbled' replaces the whole response including its status bytes; a payload change under an unchanged 9000 on an UNPROTECTED exchange (EF.CardAccess before access control) is undetectable by any terminal and is not asserted")
 	c.MustTLC(core.TLCOpts{Module: "MC_Session", Cfg: "MC_Session.cfg"})
 
-	kinds := []string{"empty", "one", "truncated", "garbled", "oversized", "status", "naked"}
+	kinds := []string{"empty", "one", "truncated", "garbled", "oversized", "status", "naked", "notfound", "invalidated"}
 	base := []struct {
 		cfg sessCfg
 		opt sessOpt
 	}{
 		{sessCfg{"bac", []int{11, 13}, "rsa", true, true, "genuine"}, sessOpt{false, false, "mrz"}},
 		{sessCfg{"cam+bac", []int{2}, "ecdsa", true, true, "genuine"}, sessOpt{false, false, "can"}},
+		// no chip authentication after the data groups: the last exchanges of the session are file reads
+		{sessCfg{"bac", []int{11, 13}, "none", false, true, "genuine"}, sessOpt{false, false, "mrz"}},
 	}
 	if c.Thorough() {
 		base = append(base, []struct {
@@ -713,6 +719,7 @@ func C11(c *core.Ctx) {
 	var passports []*perso.Passport
 	var varieties []sessVariety
 	var counts []int
+	var refs []sessOutcome
 	for bi, b := range base {
 		v := randomVariety(rand.New(rand.NewSource(c.Seed + int64(bi))))
 		v.Transport = chipsim.Transport{ExtendedLength: true, AllowOversizeShortResponse: true, LengthErrorKeepsSession: true}
@@ -730,6 +737,7 @@ func C11(c *core.Ctx) {
 			core.Infra("C11: fault-free reference read failed for %v: %s", b.cfg, ff.err)
 		}
 		counts = append(counts, ff.exchanges)
+		refs = append(refs, ff)
 		for k := 0; k < ff.exchanges; k++ {
 			for _, kind := range kinds {
 				jobs = append(jobs, job{bi, []faultSpec{{k, kind}}, c.Rand.Int63()})
@@ -757,6 +765,14 @@ func C11(c *core.Ctx) {
 		safetyViolations(c, "C11", name, passports[j.b], o, rp)
 		if o.dur > 30*time.Second {
 			c.Violation("C11:slow", fmt.Sprintf("read took %s (%s)", o.dur, name), rp)
+		}
+		// first clause (Session.tla NoSilentLoss): no error and no step outcome changed => no file was lost
+		if ff := refs[j.b]; o.err == "" && !o.panicked {
+			// (data group reads have no "recorded as failed" outcome of their own: they abort. A data group missing
+			// from a read that returned no error is therefore a swallowed fault whatever happened to later steps.)
+			if len(o.obtained) < len(ff.obtained) {
+				c.Violation("C11:fault-swallowed-file-missing", fmt.Sprintf("the read returned no error and recorded no step as failed, yet obtained %v instead of %v (%s)", o.obtained, ff.obtained, name), rp)
+			}
 		}
 		k := "completed"
 		if o.err != "" {
